@@ -45,6 +45,11 @@ assumptions(PROP, [
     "material sets: the FKM estimates (calculate_cyclic_assessment_parameters) for Steel/SteelCast/Al_wrought at "
     "R_m in {100,...,1600} MPa plus perturbed free draws (E +-10 %, K' x[0.8,1.25], n' +-0.03)",
     "loads are floats (the docstrings say 'array-like float'); python ints / integer arrays are outside the domain",
+    "domain: |load| in {0} u [1e-3, 4] x R_m (ranges: x 2) with R_m the tensile strength the material set was estimated from, "
+    "1 <= K_p <= 12, tolerances 1e-4 ... 1e-10; stresses handed to the backward functions are images of such loads.  Outside it, "
+    "observed and not asserted: vectorised ExtendedNeuber.stress returns unconverged iterates (RuntimeWarning only) once |L|/sigma "
+    "exceeds ~7 (e.g. |L| = 16 R_m, K_p = 12; inside the domain the ratio stays below 5.1), and Seeger-Beste returns values off by "
+    "more than the tolerance for |L| <= 1e-3 MPa (scipy's absolute secant start step of 1e-4 resp. 6e-6 dominates)",
     "SeegerBeste.load / load_secondary_branch are exercised with scalar input only (their docstring restricts them to the scalar case)",
     "reference root: brentq on the re-coded equation, relative accuracy ~1e-15; comparisons carry an extra 1e-12 relative slack for it",
     "'identical' results for different containers are asserted bit-for-bit between array-like containers and up to the "
@@ -380,7 +385,7 @@ def tolerances(case, binned=False):
 # strategies
 
 def _logu(lo, hi):
-    return st.floats(math.log(lo), math.log(hi)).map(math.exp)
+    return st.floats(math.log(lo), math.log(hi)).map(lambda t: min(max(math.exp(t), lo), hi))
 
 
 @st.composite
@@ -391,7 +396,8 @@ def _material(draw):
         base["E"] = base["E"] * draw(st.floats(0.9, 1.1))
         base["K"] = base["K"] * draw(st.floats(0.8, 1.25))
         base["n"] = base["n"] + draw(st.floats(-0.03, 0.03))
-        base["Rm"] = float(draw(st.integers(100, 1600)))
+        # R_m stays the one of the perturbed FKM estimate: the load domain [1e-3, 4] x R_m is tied to the material
+        # (a decoupled R_m let loads reach 16 x R_m of the material, where Newton's 20 iterations no longer suffice)
     return base
 
 
@@ -421,7 +427,7 @@ def _magnitudes(draw, n, regime):
     b = draw(st.floats(lo, hi))
     a, b = min(a, b), max(a, b)
     if b <= a * (1 + 1e-6):
-        b = a * 1.5
+        a = b / 1.5                      # (keeps the ramp inside the load domain)
     if shape == "ramp":
         return [a + (b - a) * i / (n - 1) for i in range(n)]
     return [a * (b / a) ** (i / (n - 1)) for i in range(n)]
@@ -445,6 +451,19 @@ def _loads(draw, rm, n, allow_zero=True):
         out = out[::-1]
     elif order == "perm" and n <= 40:
         out = [out[i] for i in draw(st.permutations(range(n)))]
+    return out
+
+
+def _as_stresses(case, loads):
+    """Map loads of the domain to the stresses the (reference) law assigns to them: the inputs of the backward
+    functions then lie in the image of the load domain [0, 4 R_m] (K_p < 1.012 for Seeger-Beste: plain scaling)."""
+    m, kp, sec = {"E": case["E"], "K": case["K"], "n": case["n"]}, case["K_p"], case["branch"] == "secondary"
+    out = []
+    for v in loads:
+        if v == 0:
+            out.append(0.0)
+        else:
+            out.append(math.copysign(ref_stress(case["law"], abs(v), m, kp, sec), v))
     return out
 
 
@@ -491,6 +510,12 @@ def _mat(case):
 
 def _describe(case, ctx, values):
     m = _mat(case)
+    # domain guard (the strategies construct inside it; replayed foreign cases may not be)
+    top = 4.0 * case["Rm"] * (2.0 if case["branch"] == "secondary" else 1.0)
+    if not 1.3 <= case["K"] / case["Rm"] <= 3.1:
+        ctx.skip("R_m is not the tensile strength this K' was estimated from (K'/R_m outside [1.3, 3.1])")
+    if any(abs(v) > top * (1 + 1e-12) for v in values) or not 1.0 <= case["K_p"] <= 12.0:
+        ctx.skip("load above 4 R_m or K_p outside [1, 12]")
     ctx.label("law:" + case["law"], "branch:" + case["branch"], "container:" + case.get("container", "-"),
               "tol:default" if case.get("tol") is None and case.get("rtol") is None else "tol:custom",
               "mat:" + case["mat"].split("/")[0].split(":")[0])
@@ -628,6 +653,8 @@ def _odd_cases(draw, tier):
     scale = case["Rm"] * (2.0 if case["branch"] == "secondary" else 1.0)
     case["loads"] = draw(_loads(scale, n, allow_zero=False))
     case["backward"] = draw(st.booleans()) if case["law"] == "EN" or kind in SCALAR_KINDS else False
+    if case["backward"]:
+        case["loads"] = _as_stresses(case, case["loads"])
     return case
 
 
@@ -688,6 +715,7 @@ def _mono_cases(draw, tier):
         # neighbours only a few 1e-6 .. 1e-3 apart (relative): strict monotonicity must survive the solver tolerance
         x0 = draw(_logu(1e-2, 3.9))
         step = draw(_logu(1e-6, 1e-2))
+        x0 = min(x0, 4.0 / (1.0 + step) ** n)          # the whole ramp stays inside the load domain
         xs = [x0 * (1.0 + step) ** i for i in range(n)]
     xs = [x * scale for x in xs]
     if draw(st.booleans()):
@@ -753,8 +781,8 @@ def _inv_cases(draw, tier):
     scale = case["Rm"] * (2.0 if case["branch"] == "secondary" else 1.0)
     vals = draw(_loads(scale, n, allow_zero=(case["law"] == "EN")))
     if case["direction"] == "SLS":
-        # start from stresses: keep them below ~1.6 R_m (the stress a load of 4 R_m can reach at most)
-        vals = [v * 0.4 for v in vals]
+        # start from stresses in the image of the load domain
+        vals = _as_stresses(case, vals)
     case["loads"] = vals
     return case
 
@@ -886,7 +914,7 @@ def _container_cases(draw, tier):
     scale = case["Rm"] * (2.0 if case["branch"] == "secondary" else 1.0)
     case["loads"] = draw(_loads(scale, n))
     if case["backward"]:
-        case["loads"] = [v * 0.4 for v in case["loads"]]
+        case["loads"] = _as_stresses(case, case["loads"])
     # the ndarray call is the base line; compare it with 1-3 other containers
     pool = ARRAY_KINDS[1:] * 3 + SCALAR_KINDS + ["arr1", "series1"]
     if case["law"] == "EN":
